@@ -20,6 +20,7 @@ for X in A B; do Y=$X; [ -n "${ROUND2:-}" ] && { [ $X = A ] && Y=C || Y=D; }
   [ "${ROUND:-}" = 8 ] && { [ $X = A ] && Y=O || Y=P; }
   [ "${ROUND:-}" = 9 ] && { [ $X = A ] && Y=Q || Y=R; }
   [ "${ROUND:-}" = 10 ] && { [ $X = A ] && Y=S || Y=T; }
+  [ "${ROUND:-}" = 13 ] && { [ $X = A ] && Y=U || Y=V; }
   D="$SRC/out/$X"; [ -f "$D/patch.diff" ] || continue
   OUT=/verif/seeded/$ID-$Y; LOG=$(mktemp); PATCH=$(mktemp)
   git checkout -q -- . ; rm -f tests/demo.rs
